@@ -307,13 +307,17 @@ FIELDSETS = [
     # fields literally named like keys of menu's database, ahead of the fields the keys classify
     ["X", "Y", "Z", "Y(H2)", "Y(O2)", "X(H2)"], ["Y", "density", "Y(OH)", "Y(N2)", "temp"],
     ["velocity", "x_velocity", "I_R", "I_R(H2)", "D", "D_H2", "gradp", "gradpx"],
+    # species counts that fill the lines of eight exactly
+    ["density"] + [f"Y(S{k})" for k in range(8)], [f"Y(SP{k})" for k in range(16)] + ["temp"],
+    # several hundred species: the names alone are longer than an I/O buffer of 8 KiB
+    ["x_velocity", "density"] + [f"Y(SPECIES_NUMBER_{k:04d})" for k in range(420)] + ["temp"],
     # the members of one family not next to each other in the file
     ["x_velocity", "density", "y_velocity", "Y(H2)", "temp", "Y(O2)"], ["Y(H2)", "I_R(H2)", "Y(O2)", "I_R(O2)", "X(H2)", "Y(N2)", "D_H2", "X(O2)"],
 ]
 
 
 def run(ctx, rep, model=True):
-    n = 17 if ctx.quick else 75
+    n = 20 if ctx.quick else 75
     for i in range(n):
         spec = plotgen.random_spec(ctx.rng, ndims=[3, 2, 3][i % 3], nlev=[1, 2, 3][i % 3], nf=1, B=2,
                                    data=["smallint", "bits", "tags"][i % 3], layout="scatter")
